@@ -393,7 +393,7 @@ def run(chk):
     # that declares order n (value numbering on multiples of n): no path may answer INFINITY from
     # the scalar alone, and the scalar handed to the multiplication loops must still be n
     from . import formulas
-    formulas.mul_by_declared_order(chk, p, "C08", "R08.3")
+    formulas.deferred(chk, formulas.mul_by_declared_order, p, "C08", "R08.3")
     # ---------------- shared known finding (C06 R06.4): the subgroup test is evaluated with an
     # identity predicate that conflates Y = 0 with the identity
     from sa.modp import ModP, identity_outcome
